@@ -65,3 +65,85 @@ def bfs(ctx, layer, model, depth, chunk=4, isolate=True):
     for h in samples[-2:]:
         ctx.samples.append({"layer": layer, "history": h})
     return st[layer]
+
+
+def long_histories(ctx, layer, model, rotations=4, rounds=2, chunk=4, ops=None):
+    """Depth extension beyond the BFS bound: for `rotations` rotations of the model's whole operation alphabet, the
+    cyclic history (alphabet repeated `rounds` times) is executed and EVERY prefix of it is judged (each prefix is one
+    run of the implementation compared with the reference). This is a complete enumeration of a small, stated set of long
+    histories (not a search): it reaches defects that need many earlier calls (bounded caches, counters, eviction)."""
+    alphabet = list(ops if ops is not None else model.ops([]))
+    n = len(alphabet)
+    step = max(1, n // rotations)
+    cases = []
+    for r in list(range(0, n, step))[:rotations]:
+        seq = (alphabet[r:] + alphabet[:r]) * rounds
+        for L in range(1, len(seq) + 1):
+            cases.append({"hist": seq[:L]})
+    rev = list(reversed(alphabet)) * rounds
+    cases += [{"hist": rev[:L]} for L in range(1, len(rev) + 1)]
+
+    def execute(case):
+        r = isolated(model.run, case["hist"])
+        for v in r["viols"]:
+            v.setdefault("case", {"hist": case["hist"], "layer": layer})
+        return R(r.get("label", "ok"), viols=r["viols"])
+    agg = ctx.product(layer, cases, execute, chunk=chunk, nsamples=1)
+    ctx.extra["transitions"] = ctx.extra.get("transitions", 0) + len(cases)
+    ctx.extra["traces_validated_against_impl"] = ctx.extra.get("traces_validated_against_impl", 0) + len(cases)
+    ctx.extra["max_depth"] = max(ctx.extra.get("max_depth", 0), n * rounds)
+    ctx.extra.setdefault("long_histories", {})[layer] = {"histories": rotations + 1, "length": n * rounds, "prefixes_judged": len(cases)}
+    return agg
+
+
+class PureCalls:
+    """Model for functions that ought to be PURE: ops = indexes into a small list of inputs that share parts with each
+    other; a history = a sequence of calls in one process; the last call's result must be the reference result for its
+    own input (so any memo keyed by only a part of the input, any scratch state surviving a call, shows up).
+    judge(i) -> list of violations for input i, evaluated on the implementation."""
+
+    def __init__(self, n_inputs, judge, key_prefix):
+        self.n, self.judge, self.key_prefix = n_inputs, judge, key_prefix
+
+    def ops(self, hist):
+        return list(range(self.n))
+
+    def run(self, hist):
+        viols, label = [], "init"
+        for n, i in enumerate(hist):
+            vs = self.judge(i)
+            if n == len(hist) - 1:
+                for v in vs:
+                    v["key"] = v["key"] + ":history"
+                    v["msg"] = "after calls on inputs %r in the same process: %s" % (hist[:-1], v["msg"])
+                viols, label = vs, ("violation" if vs else "pure-call-ok")
+        return {"canon": hist, "viols": viols, "label": label}
+
+
+SIZES = (1, 2, 3, 4, 5, 8, 9, 16, 17, 32, 33, 64, 65, 128, 129)
+
+
+def eviction_probe(ctx, layer, model, op_of, sizes=SIZES, chunk=2):
+    """Bounded caches / ring buffers / pools: for every capacity R in `sizes` the history
+        op(0), op(1), ..., op(R), op(0)        and        op(0), ..., op(R), op(1)
+    is executed (R distinct other requests between two identical ones) and the LAST request is judged. op_of(i) maps an
+    integer to a model operation; the model judges the last operation of a history (as in bfs())."""
+    cases = []
+    for R in sizes:
+        base = [op_of(i) for i in range(0, R + 1)]
+        cases.append({"hist": base + [op_of(0)]})
+        cases.append({"hist": base + [op_of(1)]})
+        cases.append({"hist": base + [op_of(0), op_of(0)]})      # a failed lookup must not be remembered either
+
+    def execute(case):
+        r = isolated(model.run, case["hist"])
+        for v in r["viols"]:
+            v.setdefault("case", {"hist": case["hist"], "layer": layer})
+        return R(r.get("label", "ok"), viols=r["viols"])
+    from .core import R
+    agg = ctx.product(layer, cases, execute, chunk=chunk, nsamples=1)
+    ctx.extra["transitions"] = ctx.extra.get("transitions", 0) + len(cases)
+    ctx.extra["traces_validated_against_impl"] = ctx.extra.get("traces_validated_against_impl", 0) + len(cases)
+    ctx.extra["max_depth"] = max(ctx.extra.get("max_depth", 0), max(sizes) + 2)
+    ctx.extra.setdefault("eviction_probes", {})[layer] = {"capacities": list(sizes), "histories": len(cases)}
+    return agg
